@@ -52,6 +52,16 @@ func countLeftWhitespace(s string) int {
 	return i
 }
 
+// countLeftSP is like countLeftWhitespace, but counts only SP characters.
+// Within inner lists and parameters, RFC 9651 allows SP but not HTAB.
+func countLeftSP(s string) int {
+	i := 0
+	for i < len(s) && isSP(s[i]) {
+		i++
+	}
+	return i
+}
+
 // https://www.rfc-editor.org/rfc/rfc4648#section-8.
 func decOctetHex(ch1, ch2 byte) (ch byte, ok bool) {
 	decBase16 := func(in byte) (out byte, ok bool) {
@@ -130,7 +140,7 @@ func consumeBareInnerList(s string, f func(bareItem, param string)) (consumed, r
 	rest = s[1:]
 	for len(rest) != 0 {
 		var bareItem, param string
-		rest = rest[countLeftWhitespace(rest):]
+		rest = rest[countLeftSP(rest):]
 		if len(rest) != 0 && rest[0] == ')' {
 			rest = rest[1:]
 			return s[:len(s)-len(rest)], rest, true
@@ -268,7 +278,7 @@ func consumeParameter(s string, f func(key, val string)) (consumed, rest string,
 			break
 		}
 		rest = rest[1:]
-		rest = rest[countLeftWhitespace(rest):]
+		rest = rest[countLeftSP(rest):]
 		key, rest, ok = consumeKey(rest)
 		if !ok {
 			return "", s, ok
